@@ -576,7 +576,8 @@ def module(repo, name):
         for q_, f in mod.funcs.items():
             if f.body is not None:
                 prm = [a.name for a in f.args] + ([f.vararg] if f.vararg else []) + ([f.kwarg] if f.kwarg else [])
-                f.body = canon_body(alpha.absorb_new_locals('pyx:' + name, q_, prm, alpha.recover('pyx:' + name, q_, prm, f.body)))
+                from .canon import split_cond_assigns
+                f.body = canon_body(alpha.absorb_new_locals('pyx:' + name, q_, prm, alpha.recover('pyx:' + name, q_, prm, split_cond_assigns(f.body))))
         _M[key] = mod
     return _M[key]
 
